@@ -8,6 +8,7 @@ by context; the table has the context-free form σ).
 -/
 import PybtexModel.Model.Basic
 import PybtexModel.Gen.UnicodeCase
+import PybtexModel.Gen.UnicodeLower
 
 namespace Pybtex
 
@@ -34,5 +35,62 @@ def lowerU (s : Str) : Str := s.map lowerUC
 
 /-- the strings on which `lowerU` is `str.lower`: no U+0130, no U+03A3 -/
 def lowerDomain (s : Str) : Bool := s.all fun c => c.toNat ≠ 0x130 ∧ c.toNat ≠ 0x3A3
+
+end Pybtex
+
+/-! ### `str.lower()` on whole strings (CPython `do_lower`)
+
+Besides the per-character table, `lower()` has two string-level rules: a character may expand into
+several (`_PyUnicode_ToLowerFull`: U+0130 → U+0069 U+0307) and U+03A3 becomes U+03C2 (final sigma)
+or U+03C3 depending on the ORIGINAL characters around it (`handle_capital_sigma`).  The expansion
+table and the two character classes the sigma rule consults are regenerated from the interpreter
+(`Gen/UnicodeLower.lean`).  `lowerPy` has no domain restriction. -/
+namespace Pybtex
+
+def inRangesU (n : Nat) : List (Nat × Nat) → Bool
+  | [] => false
+  | (a, b) :: r => (Nat.ble a n && Nat.ble n b) || inRangesU n r
+
+/-- `_PyUnicode_IsCaseIgnorable` -/
+def sigmaIgnorable (c : Char) : Bool := inRangesU c.toNat Gen.sigmaIgnorable
+/-- `_PyUnicode_IsCased` on a character that is not case-ignorable (the only place the rule asks) -/
+def sigmaCased (c : Char) : Bool := inRangesU c.toNat Gen.sigmaCased
+
+/-- first character that is not case-ignorable (the two `for` loops of `handle_capital_sigma`) -/
+def skipIgnorable : Str → Option Char
+  | [] => none
+  | c :: r => if sigmaIgnorable c then skipIgnorable r else some c
+
+/-- `handle_capital_sigma`: `revBefore` = the characters before the sigma, nearest first; `after` = the
+characters after it.  Final iff preceded by cased (ignorable)* and not followed by (ignorable)* cased. -/
+def finalSigma (revBefore after : Str) : Bool :=
+  (match skipIgnorable revBefore with
+   | none => false
+   | some c => sigmaCased c) &&
+  (match skipIgnorable after with
+   | none => true
+   | some c => !sigmaCased c)
+
+def lookupMulti (n : Nat) : List (Nat × List Nat) → Option (List Nat)
+  | [] => none
+  | (k, l) :: r => if Nat.beq k n then some l else lookupMulti n r
+
+/-- `_PyUnicode_ToLowerFull` for one character other than U+03A3 -/
+def lowerFullC (c : Char) : Str :=
+  match lookupMulti c.toNat Gen.lowerMultiMap with
+  | some l => l.map Char.ofNat
+  | none => [lowerUC c]
+
+def isCapitalSigma (c : Char) : Bool := Nat.beq c.toNat 0x3A3
+
+/-- the loop of `do_lower`; `revBefore` = the original characters already consumed, nearest first -/
+def lowerPyAux (revBefore : Str) : Str → Str
+  | [] => []
+  | c :: r =>
+    (if isCapitalSigma c then [if finalSigma revBefore r then Char.ofNat 0x3C2 else Char.ofNat 0x3C3]
+     else lowerFullC c) ++ lowerPyAux (c :: revBefore) r
+
+/-- `s.lower()` for every string. -/
+def lowerPy (s : Str) : Str := lowerPyAux [] s
 
 end Pybtex
